@@ -39,8 +39,11 @@ static string udec(unsigned long long v) { std::ostringstream o; o << v; return 
 template <typename T>
 static string parse_dec(const string &t, bool strict, bool is_signed) {
   T v = 0;
-  if (!ola::StringToInt(t, &v, strict)) return "ok=0";
-  return "ok=1;v=" + (is_signed ? sdec(static_cast<long long>(v)) : udec(static_cast<unsigned long long>(v)));
+  // StringToIntOrDefault<T> is the second public entry point of every overload
+  T dflt = ola::StringToIntOrDefault(t, static_cast<T>(42), strict);
+  string od = ";od=" + (is_signed ? sdec(static_cast<long long>(dflt)) : udec(static_cast<unsigned long long>(dflt)));
+  if (!ola::StringToInt(t, &v, strict)) return "ok=0" + od;
+  return "ok=1;v=" + (is_signed ? sdec(static_cast<long long>(v)) : udec(static_cast<unsigned long long>(v))) + od;
 }
 template <typename T>
 static string parse_hex(const string &t, bool is_signed, const char *ok = "ok", const char *vk = "v") {
@@ -310,16 +313,18 @@ static string handle(const string &p) {
   }
   if (op == "mac") {
     ola::network::MACAddress m;
+    std::auto_ptr<ola::network::MACAddress> m2(ola::network::MACAddress::FromString(text_of(a[1])));
     if (!ola::network::MACAddress::FromString(text_of(a[1]), &m)) {
-      std::auto_ptr<ola::network::MACAddress> m2(ola::network::MACAddress::FromString(text_of(a[1])));
-      return m2.get() ? "ok=inconsistent" : "ok=0";
+      return m2.get() ? "ok=inconsistent" : "ok=0;ep=1";
     }
+    // the other entry points: pointer-returning FromString and FromStringOrDie
+    bool ep = m2.get() && *m2 == m && ola::network::MACAddress::FromStringOrDie(text_of(a[1])) == m;
     uint8_t b[ola::network::MACAddress::LENGTH];
     m.Get(b);
     string s = m.ToString();
     ola::network::MACAddress back;
     bool rt = ola::network::MACAddress::FromString(s, &back) && back == m;
-    return "ok=1;v=" + vh::hex(b, sizeof(b)) + ";s=" + hx(s) + ";rt=" + (rt ? "1" : "0");
+    return "ok=1;v=" + vh::hex(b, sizeof(b)) + ";s=" + hx(s) + ";rt=" + (rt ? "1" : "0") + ";ep=" + (ep ? "1" : "0");
   }
   if (op == "macv") {
     vector<uint8_t> b = vh::unhex(a[1]);
@@ -354,9 +359,11 @@ static string handle(const string &p) {
     // the bare libc call on the same C string (validates Libc.inet_pton4)
     bool rok = inet_pton(AF_INET, t.c_str(), &raw) == 1;
     string r = string("lraw=") + (rok ? vh::hex(reinterpret_cast<uint8_t*>(&raw), 4) : "none");
-    if (!ola::network::IPV4Address::FromString(t, &ip)) return r + ";ok=0";
+    std::auto_ptr<ola::network::IPV4Address> ip2(ola::network::IPV4Address::FromString(t));
+    if (!ola::network::IPV4Address::FromString(t, &ip)) return r + ";ok=0;ep=" + (ip2.get() ? "0" : "1");
+    bool ep = ip2.get() && *ip2 == ip && ola::network::IPV4Address::FromStringOrDie(t) == ip;
     uint32_t v = ip.AsInt();
-    return r + ";ok=1;a=" + vh::hex(reinterpret_cast<uint8_t*>(&v), 4);
+    return r + ";ok=1;a=" + vh::hex(reinterpret_cast<uint8_t*>(&v), 4) + ";ep=" + (ep ? "1" : "0");
   }
   if (op == "ip4v") {
     vector<uint8_t> d = vh::unhex(a[1]);
@@ -371,13 +378,14 @@ static string handle(const string &p) {
   }
   if (op == "sa") {
     ola::network::IPV4SocketAddress sa;
-    if (!ola::network::IPV4SocketAddress::FromString(text_of(a[1]), &sa)) return "ok=0";
+    if (!ola::network::IPV4SocketAddress::FromString(text_of(a[1]), &sa)) return "ok=0;ep=1";
+    bool ep = ola::network::IPV4SocketAddress::FromStringOrDie(text_of(a[1])) == sa;
     uint32_t v = sa.Host().AsInt();
     string s = sa.ToString();
     ola::network::IPV4SocketAddress back;
     bool rt = ola::network::IPV4SocketAddress::FromString(s, &back) && back == sa;
     return "ok=1;a=" + vh::hex(reinterpret_cast<uint8_t*>(&v), 4) + ";p=" + udec(sa.Port()) +
-        ";s=" + hx(s) + ";rt=" + (rt ? "1" : "0");
+        ";s=" + hx(s) + ";rt=" + (rt ? "1" : "0") + ";ep=" + (ep ? "1" : "0");
   }
   if (op == "sav") {
     vector<uint8_t> d = vh::unhex(a[1]);
@@ -397,10 +405,12 @@ static string handle(const string &p) {
     bool rok = inet_pton(AF_INET6, t.c_str(), &raw) == 1;
     string r = string("lraw=") + (rok ? vh::hex(reinterpret_cast<uint8_t*>(&raw), 16) : "none");
     ola::network::IPV6Address ip;
-    if (!ola::network::IPV6Address::FromString(t, &ip)) return r + ";ok=0";
+    std::auto_ptr<ola::network::IPV6Address> ip2(ola::network::IPV6Address::FromString(t));
+    if (!ola::network::IPV6Address::FromString(t, &ip)) return r + ";ok=0;ep=" + (ip2.get() ? "0" : "1");
+    bool ep = ip2.get() && *ip2 == ip && ola::network::IPV6Address::FromStringOrDie(t) == ip;
     uint8_t b[16];
     ip.Get(b);
-    return r + ";ok=1;a=" + vh::hex(b, 16) + ";s=" + hx(ip.ToString());
+    return r + ";ok=1;a=" + vh::hex(b, 16) + ";s=" + hx(ip.ToString()) + ";ep=" + (ep ? "1" : "0");
   }
   if (op == "ip6v") {
     vector<uint8_t> d = vh::unhex(a[1]);
